@@ -51,3 +51,83 @@ def _mcs_contracts():
 
 
 FUNCTIONS = _wrap_contracts() + _mcs_contracts()
+
+
+# ----------------------------------------------------------------------------- histogram tagger (pymbolic/mapper/cse_tagger.py)
+from contracts import c04  # noqa: E402
+from pyvc.api import MapperContract  # noqa: E402
+
+
+def tag_rec(self, e, args, kwargs):
+    return c04.Rid(e, args, kwargs)
+
+
+def tag_setup(I, selfv, expr):
+    """self.subexpr_histogram is an arbitrary dict (symbolic content)."""
+    import z3
+    from pyvc import smt
+    from pyvc.values import SymDict
+    selfv.attrs["subexpr_histogram"] = SymDict(z3.Const("histogram", smt.V), None, "histogram")
+
+
+def tag_post(self, expr, args, kwargs, result):
+    """A node the histogram counts more than once is returned inside exactly one new wrapper (no prefix) whose child is the node
+    mapped like the identity traversal -- so that what repeats inside it is tagged as well; any other node is mapped like the
+    identity traversal."""
+    if self.subexpr_histogram.get(expr, 0) > 1:
+        return is_cse(result) and same(result.prefix, None) and not is_cse(result.child) \
+            and c04.ident_post(self, expr, args, kwargs, result.child)
+    return c04.ident_post(self, expr, args, kwargs, result)
+
+
+TAGGER = MapperContract(
+    "C12.CSETagMapper", "pymbolic.mapper.cse_tagger:CSETagMapper", rec=tag_rec,
+    ensures=[("wrap-repeated-and-descend", tag_post)], setup=tag_setup, extra_args=False, property_id="C12")
+TAGGER.allowed_exc = c04.IDENTITY.allowed_exc
+TAGGER_CLASSES = ["Sum", "Product", "Quotient", "FloorDiv", "Remainder", "Power", "Call", "LeftShift", "RightShift", "BitwiseNot", "BitwiseOr", "BitwiseXor",
+                  "BitwiseAnd", "Comparison", "LogicalNot", "LogicalAnd", "LogicalOr", "If"]
+
+
+# ----------------------------------------------------------------------------- CSEMapper (pymbolic/cse.py)
+def cse_setup(I, selfv, expr):
+    """get_key is an arbitrary pure function, to_eliminate an arbitrary set of keys, canonical_subexprs an arbitrary table whose
+    entries satisfy the table invariant (everything stored went through wrap_in_cse: it is never a node that wrap_in_cse would
+    still wrap, in particular a stored wrapper's child is not a wrapper -- assumed on look-up, re-established on every write)."""
+    import z3
+    from pyvc import smt
+    from pyvc.values import BoundMethod, NativeHandler, SymDict, SymSet, SymV
+
+    def get_key(I, self_obj, args, kwargs, star, dstar, node):
+        return SymV(smt.fn("nkey", smt.V, smt.V)(I.lift(args[0])))
+    selfv.attrs["get_key"] = BoundMethod(selfv, NativeHandler(get_key), "get_key")
+    selfv.attrs["to_eliminate"] = SymSet(z3.Const("to_eliminate", smt.SetV))
+    selfv.attrs["canonical_subexprs"] = SymDict(z3.Const("canonical", smt.V), None, "canonical_subexprs")
+
+
+def cse_old(self, expr, args, kwargs):
+    key = self.get_key(expr)
+    return (key in self.canonical_subexprs, self.canonical_subexprs.get(key))
+
+
+def cse_post(self, expr, args, kwargs, result, old):
+    """A node whose key is not to be eliminated is mapped like the identity traversal.  Otherwise: the table entry for the key if
+    there is one (the very object: this is what makes all occurrences share ONE wrapper), else the identity-mapped node wrapped
+    by wrap_in_cse's rule without a prefix, which is then the table's entry for the key."""
+    key = self.get_key(expr)
+    if key not in self.to_eliminate:
+        return c04.ident_post(self, expr, args, kwargs, result)
+    had, stored = old
+    if had:
+        return same(result, stored)
+    if not same(self.canonical_subexprs.get(key), result):
+        return False
+    if is_cse(result):
+        return same(result.prefix, None) and c04.ident_post(self, expr, args, kwargs, result.child)
+    return False
+
+
+CSEMAPPER = MapperContract(
+    "C12.CSEMapper", "pymbolic.cse:CSEMapper", rec=tag_rec,
+    ensures=[("shared-wrapper-or-identity", cse_post)], setup=cse_setup, old=cse_old, extra_args=False, property_id="C12")
+CSEMAPPER.allowed_exc = c04.IDENTITY.allowed_exc
+CSEMAPPER_CLASSES = ["Sum", "Product", "Power", "Quotient", "Remainder", "FloorDiv", "Call"]
